@@ -52,7 +52,7 @@ def install(reg):
             return Val(INT, r)
         if meth == "random":
             x = z3.Real(f"rngf!{len(ex.rng_log)}!{uid()}"); pc.append(z3.And(0 <= x, x < 1))
-            ex.rng_log.append(("random", x)); ex.assumptions.add("random.random() returns an arbitrary 0 <= r < 1")
+            ex.rng_log.append(("random", x)); ex.assumptions.add("random.random() returns an arbitrary 0 <= r < 1"); st.env["RANDOM_DRAW"] = Val(REAL, x)
             return Val(REAL, x)
         return None
     reg.call_hooks.append(random_hook)
